@@ -63,6 +63,8 @@ REVERTS = [
     ('F65-v6-unsupported-curve-overread', '7bdcc4b', {'C05': ['S05-16:total-minus-prefix:types::params::public::ecdsa']}),
     ('F66-jpeg-header-length', 'a5c47b1', {'C05': ['S05-14:constant-length-variant-checked']}),
     ('F69-message-parser-drains', 'c57b8f3', {'C17': ['S17-4:message-parser-drains']}),
+    ('F70-key-framing-by-signature-version', '900764d', {'C11': ['key-frame:selected-by-signature-version']}),
+    ('F72-iterator-stops-after-refused-framing', '836fe37', {'C17': ['S17-2:illegal-framing-stops-parser']}),
     ('F67-ecdh-zero-padding', '5930fe1', {'C12': ['ecdh:unpad-lower-bound']}),
     ('F68-armor-leading-dashes', 'cfc42e1', {'C10': ['S10-7:leading-text-skipped-to-full-opener']}),
 ]
